@@ -6,6 +6,7 @@
 #![allow(clippy::all)]
 #![allow(dead_code)]
 
+extern crate alloc;
 pub mod sym;
 #[macro_use]
 pub mod mac;
